@@ -148,6 +148,11 @@ WITNESSES = [
     dict(id="c20-ok-idx-sum", prop="C20", file=E, expect=None,
          old="        return tuple(s for s, n in self._idx_counter for _ in range(n + 1))",
          new="        return sum(((s,) * (n + 1) for s, n in self._idx_counter), ())"),
+    dict(id="c20-ok-explicit-assumptions", prop="C20", file=S, expect=None,
+         old="            new_term = e.Expr(delta, **term.assumptions)",
+         new="            new_term = e.Expr(delta, real=term.real, sym_tensors=term.sym_tensors,\n"
+             "                              antisym_tensors=term.antisym_tensors,\n"
+             "                              target_idx=term.provided_target_idx)"),
     dict(id="c20-ok-evaluate-keyword", prop="C20", file=S, expect=None,
          old="func.evaluate_deltas(res.sympy)", new="func.evaluate_deltas(expr=res.sympy, target_idx=None)"),
 ]
